@@ -40,6 +40,11 @@ import (
 // GetScopeValueOwner, gRPC Scope and ValueOwnership queries, every authz grant, every quarantine
 // record, accept/reject.
 //
+// The last histories of a run are CHAIN histories (c09_abci_test.go): the same generator, every
+// message in a signed transaction through CheckTx / FinalizeBlock, with and without a fee granter.
+// The marker module is also pointed at scope-token denoms (add a marker on the denom, mint, forced
+// transfer, withdraw): refused on the pinned code.
+//
 // Cast (model index): 0 metadata module account, 1-3 users (scope owners), 4 authz grantee,
 // 5 stranger, 6 marker administrator, 7 unrestricted marker, 8 restricted marker, 9 smart contract
 // (base account, sequence 0, no public key), 10 another module account (blocked), 11 the quarantine
@@ -88,14 +93,15 @@ const c09NoSpec = 5
 var c09MarkerStatus = []string{"", "proposed", "finalized", "active", "cancelled", "destroyed"}
 
 type c09Env struct {
-	t     *testing.T
-	app   *simapp.App
-	base  sdk.Context
-	t0    time.Time
-	addrs map[int]sdk.AccAddress
-	order []int // model indexes in a fixed order
-	specs []mdtypes.MetadataAddress
-	mkDen map[int]string
+	t       *testing.T
+	app     *simapp.App
+	base    sdk.Context
+	t0      time.Time
+	addrs   map[int]sdk.AccAddress
+	order   []int // model indexes in a fixed order
+	specs   []mdtypes.MetadataAddress
+	mkDen   map[int]string
+	onChain bool // ABCI route: begin/end blockers run between the steps
 }
 
 func (e *c09Env) idx(a sdk.AccAddress) int {
@@ -143,28 +149,38 @@ func c09Setup(t *testing.T) *c09Env {
 	app, ctx := newApp(t)
 	t0 := time.Unix(1_700_000_000, 0).UTC()
 	ctx = ctx.WithBlockTime(t0)
+	users := map[int]sdk.AccAddress{}
+	for i := 1; i <= 6; i++ {
+		users[i] = addrN(9000 + i)
+	}
+	// ordinary accounts have signed before (sequence 1): the metadata module treats an existing base
+	// account with sequence 0 and no public key as a smart contract
+	for i := 1; i <= 6; i++ {
+		acc := app.AccountKeeper.NewAccount(ctx, authtypes.NewBaseAccountWithAddress(users[i]))
+		if err := acc.SetSequence(1); err != nil {
+			t.Fatal(err)
+		}
+		app.AccountKeeper.SetAccount(ctx, acc)
+	}
+	return c09Populate(t, app, ctx, t0, users)
+}
+
+// c09Populate builds the cast around the six ordinary accounts (which exist already) and writes the
+// markers and scope specifications through ctx.
+func c09Populate(t *testing.T, app *simapp.App, ctx sdk.Context, t0 time.Time, users map[int]sdk.AccAddress) *c09Env {
 	e := &c09Env{t: t, app: app, base: ctx, t0: t0, addrs: map[int]sdk.AccAddress{},
 		mkDen: map[int]string{c09Mk1: "cninecoin", c09Mk2: "cninerest", c09Mk3: "cnineforced"}}
 	e.addrs[c09Module] = authtypes.NewModuleAddress(mdtypes.ModuleName)
 	e.addrs[c09Blocked] = authtypes.NewModuleAddress("mint")
 	e.addrs[c09QHold] = app.QuarantineKeeper.GetFundsHolder()
 	for i := 1; i <= 6; i++ {
-		e.addrs[i] = addrN(9000 + i)
+		e.addrs[i] = users[i]
 	}
 	e.addrs[c09Wasm] = addrN(9009)
 	for _, mi := range c09Markers {
 		e.addrs[mi] = markertypes.MustGetMarkerAddress(e.mkDen[mi])
 	}
 	e.order = []int{0, 1, 2, 3, 4, 5, 6, 7, 8, 9, 10, 11, 12}
-	// ordinary accounts have signed before (sequence 1): the metadata module treats an existing base
-	// account with sequence 0 and no public key as a smart contract
-	for i := 1; i <= 6; i++ {
-		acc := app.AccountKeeper.NewAccount(ctx, authtypes.NewBaseAccountWithAddress(e.addrs[i]))
-		if err := acc.SetSequence(1); err != nil {
-			t.Fatal(err)
-		}
-		app.AccountKeeper.SetAccount(ctx, acc)
-	}
 	ensureAccount(app, ctx, e.addrs[c09Wasm])
 	// markers
 	for _, mi := range c09Markers {
@@ -236,6 +252,9 @@ func (e *c09Env) randMarker(r *rand.Rand, mi int) c09Marker {
 	m := c09Marker{restricted: mi != c09Mk1, forced: mi == c09Mk3, status: int(markertypes.StatusActive)}
 	if r.Intn(5) < 3 {
 		m.status = []int{1, 2, 4, 5}[r.Intn(4)]
+		if e.onChain && m.status == 5 {
+			m.status = 4 // on a chain the marker module's BeginBlocker deletes a destroyed marker in the next block
+		}
 	}
 	cands := []int{c09Admin, 1, c09Grantee, c09Wasm}
 	for _, a := range cands {
@@ -358,9 +377,15 @@ func (h *c09Hist) mkScope(d int, sc c09Scope, vo int) mdtypes.Scope {
 	return scope
 }
 
+// c09Op: run executes the operation through the message router / keepers on a context (keeper
+// mode); msg (when the operation is a message) and done (the generator's bookkeeping after an accepted
+// message) let the ABCI route deliver the same operation in a signed transaction instead.
 type c09Op struct {
 	term, dsc, cls string
 	run            func(sdk.Context) error
+	msg            sdk.Msg
+	done           func()
+	granter        int // ABCI route: 0 = a fee granter at random, 1 = with, 2 = without
 }
 
 func c09WriteTerm(sg []int, d int, sc c09Scope, vo int) string {
@@ -372,6 +397,7 @@ func (h *c09Hist) opWrite(cls string, sg []int, d int, sc c09Scope, vo int) c09O
 	return c09Op{cls: cls,
 		term: c09WriteTerm(sg, d, sc, vo),
 		dsc:  fmt.Sprintf("%s scope %d parties %v spec %d data %v rollup %v vo %d signers %v", cls, d+1, sc.parties, sc.spec, sc.data, sc.rollup, vo, sg),
+		msg:  msg, done: func() { cp := sc.clone(); h.scopes[d] = &cp },
 		run: func(c sdk.Context) error {
 			err := h.e.runMsg(c, msg)
 			if err == nil {
@@ -392,7 +418,7 @@ func (h *c09Hist) opUpdate(sg []int, ds []int, to int) c09Op {
 	msg := &mdtypes.MsgUpdateValueOwnersRequest{ScopeIds: ids, ValueOwnerAddress: h.e.addrs[to].String(), Signers: h.strs(sg)}
 	return c09Op{cls: "update", term: fmt.Sprintf("OUpdate %s %s %s", c09Ns(sg), c09Ns(dn), c09N(to)),
 		dsc: fmt.Sprintf("update scopes %v to %d signers %v", dn, to, sg),
-		run: func(c sdk.Context) error { return h.e.runMsg(c, msg) }}
+		msg: msg, run: func(c sdk.Context) error { return h.e.runMsg(c, msg) }}
 }
 
 func (h *c09Hist) opMigrate(sg []int, from, to int) c09Op {
@@ -400,7 +426,7 @@ func (h *c09Hist) opMigrate(sg []int, from, to int) c09Op {
 	msg := &mdtypes.MsgMigrateValueOwnerRequest{Existing: e.addrs[from].String(), Proposed: e.addrs[to].String(), Signers: h.strs(sg)}
 	return c09Op{cls: "migrate", term: fmt.Sprintf("OMigrate %s %s %s", c09Ns(sg), c09N(from), c09N(to)),
 		dsc: fmt.Sprintf("migrate %d to %d signers %v", from, to, sg),
-		run: func(c sdk.Context) error { return e.runMsg(c, msg) }}
+		msg: msg, run: func(c sdk.Context) error { return e.runMsg(c, msg) }}
 }
 
 func (h *c09Hist) opAddData(sg []int, d int, da []int) c09Op {
@@ -411,6 +437,11 @@ func (h *c09Hist) opAddData(sg []int, d int, da []int) c09Op {
 	msg := &mdtypes.MsgAddScopeDataAccessRequest{ScopeId: h.ids[d], DataAccess: strs, Signers: h.strs(sg)}
 	return c09Op{cls: "add-data-access", term: fmt.Sprintf("OAddData %s %s %s", c09Ns(sg), c09N(d+1), c09Ns(da)),
 		dsc: fmt.Sprintf("add data access %v to scope %d signers %v", da, d+1, sg),
+		msg: msg, done: func() {
+			if h.scopes[d] != nil {
+				h.scopes[d].data = append(h.scopes[d].data, da...)
+			}
+		},
 		run: func(c sdk.Context) error {
 			err := h.e.runMsg(c, msg)
 			if err == nil && h.scopes[d] != nil {
@@ -436,6 +467,31 @@ func (h *c09Hist) opGrant(granter, grantee, k int, hasExp bool, exp int64, hasLe
 		run: func(c sdk.Context) error {
 			return try(func() error { return e.app.AuthzKeeper.SaveGrant(c, e.addrs[grantee], e.addrs[granter], a, expT) })
 		}}
+}
+
+// markerScript (chain histories): a scope is put into the unrestricted marker by its value owner, then
+// the stranger -- who has no access on any marker -- tries to take it out by every value-owner-changing
+// message, in a transaction without and with a fee granter.
+func (h *c09Hist) markerScript(nIds int) []func() c09Op {
+	for _, d := range h.r.Perm(nIds) {
+		a := h.holder(d)
+		if a < 1 || a > c09Admin || h.scopes[d] == nil {
+			continue
+		}
+		with := func(o c09Op, g int) c09Op { o.granter = g; return o }
+		sc := h.scopes[d]
+		return []func() c09Op{
+			func() c09Op { return h.opUpdate([]int{a}, []int{d}, c09Mk1) },
+			func() c09Op { return with(h.opUpdate([]int{c09Stranger}, []int{d}, c09Stranger), 2) },
+			func() c09Op { return with(h.opUpdate([]int{c09Stranger}, []int{d}, c09Stranger), 1) },
+			func() c09Op { return with(h.opMigrate([]int{c09Stranger}, c09Mk1, c09Stranger), 1) },
+			func() c09Op {
+				return with(h.opWrite("write-vo-only", []int{c09Stranger}, d, sc.clone(), c09Stranger), 1)
+			},
+			func() c09Op { return with(h.opDelete(h.goodSigners(3, nil, -1, sc.need(sc.spec)), d), 1) },
+		}
+	}
+	return nil
 }
 
 // expiryScript: a value owner lets the grantee update its scopes until a deadline; the grantee uses
@@ -477,6 +533,7 @@ func (h *c09Hist) opDelete(sg []int, d int) c09Op {
 	msg := &mdtypes.MsgDeleteScopeRequest{ScopeId: h.ids[d], Signers: h.strs(sg)}
 	return c09Op{cls: "delete", term: fmt.Sprintf("ODelete %s %s", c09Ns(sg), c09N(d+1)),
 		dsc: fmt.Sprintf("delete scope %d signers %v", d+1, sg),
+		msg: msg, done: func() { delete(h.scopes, d) },
 		run: func(c sdk.Context) error {
 			err := h.e.runMsg(c, msg)
 			if err == nil {
@@ -492,20 +549,20 @@ func (h *c09Hist) opSend(from, to, d int, amt int64) c09Op {
 		Amount: sdk.Coins{sdk.Coin{Denom: h.ids[d].Denom(), Amount: sdkmath.NewInt(amt)}}}
 	return c09Op{cls: "send", term: fmt.Sprintf("OSend %s %s %s %s", c09N(from), c09N(to), c09N(d+1), zI64(amt)),
 		dsc: fmt.Sprintf("bank send scope %d token from %d to %d amount %d", d+1, from, to, amt),
-		run: func(c sdk.Context) error { return e.runMsg(c, msg) }}
+		msg: msg, run: func(c sdk.Context) error { return e.runMsg(c, msg) }}
 }
 
 func (h *c09Hist) opOptIn(a int) c09Op {
 	msg := &quarantine.MsgOptIn{ToAddress: h.e.addrs[a].String()}
 	return c09Op{cls: "opt-in", term: fmt.Sprintf("OOptIn %s", c09N(a)), dsc: fmt.Sprintf("quarantine opt-in %d", a),
-		run: func(c sdk.Context) error { return h.e.runMsg(c, msg) }}
+		msg: msg, run: func(c sdk.Context) error { return h.e.runMsg(c, msg) }}
 }
 
 func (h *c09Hist) opAccept(to int, froms []int, perm bool) c09Op {
 	msg := &quarantine.MsgAccept{ToAddress: h.e.addrs[to].String(), FromAddresses: h.strs(froms), Permanent: perm}
 	return c09Op{cls: "accept", term: fmt.Sprintf("OAccept %s %s %s", c09N(to), c09Ns(froms), coqBool(perm)),
 		dsc: fmt.Sprintf("quarantine accept by %d from %v permanent %v", to, froms, perm),
-		run: func(c sdk.Context) error { return h.e.runMsg(c, msg) }}
+		msg: msg, run: func(c sdk.Context) error { return h.e.runMsg(c, msg) }}
 }
 
 // c09Script: the histories of the observation Examples of coq/Properties/C09.v, run on the real
@@ -532,6 +589,59 @@ func (h *c09Hist) c09Script(k int) []func() c09Op {
 	}
 }
 
+// The marker module on a scope token's denom (refused on the pinned code: the unrestricted-denom
+// expression does not match a denom with a '/', and without a marker the other messages find nothing).
+func (h *c09Hist) opMarkerAdd(a, d int, supply int64, activate, restricted bool) c09Op {
+	e := h.e
+	den := h.ids[d].Denom()
+	mt := markertypes.MarkerType_Coin
+	perms := []markertypes.Access{markertypes.Access_Admin, markertypes.Access_Mint, markertypes.Access_Burn, markertypes.Access_Deposit,
+		markertypes.Access_Withdraw, markertypes.Access_Delete}
+	if restricted {
+		mt = markertypes.MarkerType_RestrictedCoin
+		perms = append(perms, markertypes.Access_Transfer, markertypes.Access_ForceTransfer)
+	}
+	access := []markertypes.AccessGrant{{Address: e.addrs[a].String(), Permissions: perms}}
+	var msg sdk.Msg
+	if activate {
+		msg = &markertypes.MsgAddFinalizeActivateMarkerRequest{Amount: sdk.NewInt64Coin(den, supply), Manager: e.addrs[a].String(),
+			FromAddress: e.addrs[a].String(), MarkerType: mt, AccessList: access, AllowForcedTransfer: restricted}
+	} else {
+		msg = &markertypes.MsgAddMarkerRequest{Amount: sdk.NewInt64Coin(den, supply), Manager: e.addrs[a].String(),
+			FromAddress: e.addrs[a].String(), Status: markertypes.StatusFinalized, MarkerType: mt, AccessList: access, AllowForcedTransfer: restricted}
+	}
+	return c09Op{cls: "marker-on-scope-denom add", term: fmt.Sprintf("OMarkerAdd %s %s %s %s", c09N(a), c09N(d+1), zI64(supply), coqBool(activate)),
+		dsc: fmt.Sprintf("marker module: %d adds a marker (supply %d, activate %v, restricted %v) on the denom of scope %d", a, supply, activate, restricted, d+1),
+		msg: msg, run: func(c sdk.Context) error { return e.runMsg(c, msg) }}
+}
+
+func (h *c09Hist) opMarkerMint(a, d int, amt int64) c09Op {
+	e := h.e
+	msg := &markertypes.MsgMintRequest{Amount: sdk.NewInt64Coin(h.ids[d].Denom(), amt), Administrator: e.addrs[a].String()}
+	return c09Op{cls: "marker-on-scope-denom mint", term: fmt.Sprintf("OMarkerMint %s %s %s", c09N(a), c09N(d+1), zI64(amt)),
+		dsc: fmt.Sprintf("marker module: %d mints %d of the denom of scope %d", a, amt, d+1),
+		msg: msg, run: func(c sdk.Context) error { return e.runMsg(c, msg) }}
+}
+
+func (h *c09Hist) opMarkerTransfer(a, from, to, d int) c09Op {
+	e := h.e
+	msg := &markertypes.MsgTransferRequest{Amount: sdk.NewInt64Coin(h.ids[d].Denom(), 1), Administrator: e.addrs[a].String(),
+		FromAddress: e.addrs[from].String(), ToAddress: e.addrs[to].String()}
+	return c09Op{cls: "marker-on-scope-denom transfer", term: fmt.Sprintf("OMarkerTransfer %s %s %s %s", c09N(a), c09N(from), c09N(to), c09N(d+1)),
+		dsc: fmt.Sprintf("marker module: %d transfers the token of scope %d from %d to %d", a, d+1, from, to),
+		msg: msg, run: func(c sdk.Context) error { return e.runMsg(c, msg) }}
+}
+
+func (h *c09Hist) opMarkerWithdraw(a, to, d int) c09Op {
+	e := h.e
+	den := h.ids[d].Denom()
+	msg := &markertypes.MsgWithdrawRequest{Denom: den, Administrator: e.addrs[a].String(), ToAddress: e.addrs[to].String(),
+		Amount: sdk.NewCoins(sdk.NewInt64Coin(den, 1))}
+	return c09Op{cls: "marker-on-scope-denom withdraw", term: fmt.Sprintf("OMarkerWithdraw %s %s %s", c09N(a), c09N(to), c09N(d+1)),
+		dsc: fmt.Sprintf("marker module: %d withdraws the token of scope %d to %d", a, d+1, to),
+		msg: msg, run: func(c sdk.Context) error { return e.runMsg(c, msg) }}
+}
+
 func (h *c09Hist) opSetTime(t int64) c09Op {
 	return c09Op{cls: "set-time", term: fmt.Sprintf("OSetTime %s", zI64(t)), dsc: fmt.Sprintf("block time %d", t),
 		run: func(sdk.Context) error {
@@ -551,6 +661,8 @@ type c09Hist struct {
 	now     int64
 	profile string
 	paged   bool
+	pending []func() c09Op // follow-up operations of a scripted sequence
+	extra   [][2]string    // steps (term with observation, description) that the chain inserted before the current one
 }
 
 func (h *c09Hist) strs(l []int) []string {
@@ -1117,14 +1229,15 @@ func (h *c09Hist) changeOther(cur *c09Scope) c09Scope {
 }
 
 // weights of the operation kinds per history profile:
-// write, update, migrate, delete, add-data, send, multisend, authz, marker, time, sanction, quarantine-admin, accept
+// write, update, migrate, delete, add-data, send, multisend, authz, marker, time, sanction, quarantine-admin, accept,
+// marker module on a scope denom
 var c09Profiles = map[string][]int{
-	"plain":      {30, 18, 9, 10, 7, 10, 3, 8, 5, 0, 0, 0, 0},
-	"authz":      {22, 16, 9, 9, 8, 4, 1, 18, 3, 10, 0, 0, 0},
-	"quarantine": {20, 13, 7, 6, 2, 12, 7, 3, 3, 1, 0, 13, 13},
-	"sanction":   {24, 15, 8, 9, 3, 12, 4, 4, 4, 0, 13, 2, 2},
-	"marker":     {20, 20, 9, 10, 2, 14, 4, 3, 16, 0, 1, 1, 0},
-	"mixed":      {20, 13, 7, 7, 4, 9, 4, 9, 6, 5, 5, 6, 5},
+	"plain":      {30, 18, 9, 10, 7, 10, 3, 8, 5, 0, 0, 0, 0, 2},
+	"authz":      {22, 16, 9, 9, 8, 4, 1, 18, 3, 10, 0, 0, 0, 1},
+	"quarantine": {20, 13, 7, 6, 2, 12, 7, 3, 3, 1, 0, 13, 13, 1},
+	"sanction":   {24, 15, 8, 9, 3, 12, 4, 4, 4, 0, 13, 2, 2, 1},
+	"marker":     {20, 20, 9, 10, 2, 14, 4, 3, 16, 0, 1, 1, 0, 3},
+	"mixed":      {20, 13, 7, 7, 4, 9, 4, 9, 6, 5, 5, 6, 5, 2},
 }
 var c09ProfileOrder = []string{"plain", "plain", "authz", "quarantine", "sanction", "marker", "mixed", "quarantine", "authz", "marker"}
 
@@ -1334,6 +1447,7 @@ func (h *c09Hist) genOp(nIds int) c09Op {
 		msg := &mdtypes.MsgDeleteScopeRequest{ScopeId: h.ids[d], Signers: h.strs(sg)}
 		return c09Op{cls: "delete vo-" + h.voClass(d, hold), term: fmt.Sprintf("ODelete %s %s", c09Ns(sg), c09N(d+1)),
 			dsc: fmt.Sprintf("delete scope %d signers %v", d+1, sg),
+			msg: msg, done: func() { delete(h.scopes, d) },
 			run: func(c sdk.Context) error {
 				err := e.runMsg(c, msg)
 				if err == nil {
@@ -1387,7 +1501,7 @@ func (h *c09Hist) genOp(nIds int) c09Op {
 			Amount: sdk.Coins{sdk.Coin{Denom: h.ids[d].Denom(), Amount: sdkmath.NewInt(amt)}}}
 		return c09Op{cls: "send", term: fmt.Sprintf("OSend %s %s %s %s", c09N(from), c09N(to), c09N(d+1), zI64(amt)),
 			dsc: fmt.Sprintf("bank send scope %d token from %d to %d amount %d", d+1, from, to, amt),
-			run: func(c sdk.Context) error { return e.runMsg(c, msg) }}
+			msg: msg, run: func(c sdk.Context) error { return e.runMsg(c, msg) }}
 	case 6: // bank multi-send of the tokens an account holds
 		from := h.anyAcct()
 		for _, d := range r.Perm(nIds) {
@@ -1450,7 +1564,7 @@ func (h *c09Hist) genOp(nIds int) c09Op {
 		msg := &banktypes.MsgMultiSend{Inputs: []banktypes.Input{{Address: e.addrs[from].String(), Coins: total}}, Outputs: outputs}
 		return c09Op{cls: "multisend", term: fmt.Sprintf("OMultiSend %s %s", c09N(from), coqList(terms)),
 			dsc: fmt.Sprintf("bank multi-send from %d: %s", from, strings.Join(dscs, " ")),
-			run: func(c sdk.Context) error { return e.runMsg(c, msg) }}
+			msg: msg, run: func(c sdk.Context) error { return e.runMsg(c, msg) }}
 	case 7: // authz grant / revoke
 		granter := 1 + r.Intn(3)
 		if r.Intn(4) == 0 {
@@ -1557,11 +1671,11 @@ func (h *c09Hist) genOp(nIds int) c09Op {
 		case v < 5:
 			msg := &quarantine.MsgOptIn{ToAddress: e.addrs[a].String()}
 			return c09Op{cls: "opt-in", term: fmt.Sprintf("OOptIn %s", c09N(a)), dsc: fmt.Sprintf("quarantine opt-in %d", a),
-				run: func(c sdk.Context) error { return e.runMsg(c, msg) }}
+				msg: msg, run: func(c sdk.Context) error { return e.runMsg(c, msg) }}
 		case v < 6:
 			msg := &quarantine.MsgOptOut{ToAddress: e.addrs[a].String()}
 			return c09Op{cls: "opt-out", term: fmt.Sprintf("OOptOut %s", c09N(a)), dsc: fmt.Sprintf("quarantine opt-out %d", a),
-				run: func(c sdk.Context) error { return e.runMsg(c, msg) }}
+				msg: msg, run: func(c sdk.Context) error { return e.runMsg(c, msg) }}
 		default:
 			from := h.anyAcct()
 			if r.Intn(3) == 0 {
@@ -1578,8 +1692,29 @@ func (h *c09Hist) genOp(nIds int) c09Op {
 				Updates: []*quarantine.AutoResponseUpdate{{FromAddress: e.addrs[from].String(), Response: resp}}}
 			return c09Op{cls: "auto-response", term: fmt.Sprintf("OAutoAccept %s %s %s", c09N(a), c09N(from), coqBool(on)),
 				dsc: fmt.Sprintf("quarantine auto-response of %d for %d: %v", a, from, resp),
-				run: func(c sdk.Context) error { return e.runMsg(c, msg) }}
+				msg: msg, run: func(c sdk.Context) error { return e.runMsg(c, msg) }}
 		}
+	case 13: // the marker module pointed at a scope token's denom: create a marker on it, then mint / force-transfer / withdraw
+		d := existing[r.Intn(len(existing))]
+		for _, c := range r.Perm(nIds) {
+			if h.holder(c) >= 0 {
+				d = c
+				break
+			}
+		}
+		a := []int{c09Stranger, c09Admin, 1, 2, 3}[r.Intn(5)]
+		hold := h.holder(d)
+		if hold < 0 {
+			hold = 1 + r.Intn(3)
+		}
+		ops := []func() c09Op{
+			func() c09Op { return h.opMarkerAdd(a, d, int64(1+r.Intn(2)), r.Intn(3) > 0, r.Intn(4) > 0) },
+			func() c09Op { return h.opMarkerMint(a, d, 1) },
+			func() c09Op { return h.opMarkerTransfer(a, hold, a, d) },
+			func() c09Op { return h.opMarkerWithdraw(a, a, d) },
+		}
+		h.pending = append(h.pending, ops[1:]...)
+		return ops[0]()
 	default: // accept / decline quarantined funds
 		to := 1 + r.Intn(3)
 		froms := []int{h.anyAcct()}
@@ -1599,13 +1734,13 @@ func (h *c09Hist) genOp(nIds int) c09Op {
 		if r.Intn(6) == 0 {
 			msg := &quarantine.MsgDecline{ToAddress: e.addrs[to].String(), FromAddresses: h.strs(froms)}
 			return c09Op{cls: "decline", term: fmt.Sprintf("ODecline %s %s", c09N(to), c09Ns(froms)), dsc: fmt.Sprintf("quarantine decline by %d from %v", to, froms),
-				run: func(c sdk.Context) error { return e.runMsg(c, msg) }}
+				msg: msg, run: func(c sdk.Context) error { return e.runMsg(c, msg) }}
 		}
 		perm := r.Intn(4) == 0
 		msg := &quarantine.MsgAccept{ToAddress: e.addrs[to].String(), FromAddresses: h.strs(froms), Permanent: perm}
 		return c09Op{cls: "accept", term: fmt.Sprintf("OAccept %s %s %s", c09N(to), c09Ns(froms), coqBool(perm)),
 			dsc: fmt.Sprintf("quarantine accept by %d from %v permanent %v", to, froms, perm),
-			run: func(c sdk.Context) error { return e.runMsg(c, msg) }}
+			msg: msg, run: func(c sdk.Context) error { return e.runMsg(c, msg) }}
 	}
 }
 
@@ -1645,9 +1780,23 @@ func (h *c09Hist) holderKind(a int, bcls string) string {
 // bulk = 20: twenty scopes with DIFFERENT value owners, then bulk updates over 1-20 of them;
 // bulk = 110: more scopes (105) than the ValueOwnership page size held by one account, then migrations.
 func c09History(e *c09Env, r *rand.Rand, w *CaseWriter, hi int, legacy int, bulk int) {
-	ctx, _ := e.base.CacheContext()
+	c09HistoryOn(e, nil, r, w, hi, legacy, bulk)
+}
+
+// c09HistoryOn: net == nil runs the history in keeper mode on a cache of e.base; otherwise every
+// step is a block of the chain net (a signed transaction, or keeper writes on the open block).
+func c09HistoryOn(e *c09Env, net *c09Net, r *rand.Rand, w *CaseWriter, hi int, legacy int, bulk int) {
+	var ctx sdk.Context
+	if net == nil {
+		ctx, _ = e.base.CacheContext()
+	} else {
+		ctx = net.openCtx()
+	}
 	h := &c09Hist{e: e, r: r, ctx: ctx, scopes: map[int]*c09Scope{}, mks: map[int]c09Marker{},
 		profile: c09ProfileOrder[hi%len(c09ProfileOrder)]}
+	if net != nil && hi%2 == 0 {
+		h.profile = "marker" // every other chain history: scopes owned by markers, taken out with and without withdraw access
+	}
 	nIds := 2 + r.Intn(3)
 	if bulk < 0 {
 		nIds = 1
@@ -1778,6 +1927,11 @@ func c09History(e *c09Env, r *rand.Rand, w *CaseWriter, hi int, legacy int, bulk
 		}
 		nSteps = len(queue) + 3
 	}
+	if net != nil {
+		net.commitOpen()
+		h.ctx = net.queryCtx()
+		w.Count("abci histories")
+	}
 	obs0 := h.observe(true)
 
 	var steps, descs []string
@@ -1785,25 +1939,42 @@ func c09History(e *c09Env, r *rand.Rand, w *CaseWriter, hi int, legacy int, bulk
 	scripted := false
 	for s := 0; s < nSteps; s++ {
 		var op c09Op
+		if net != nil && len(queue) == 0 && !scripted && s >= 2 && r.Intn(4) == 0 {
+			if q := h.markerScript(nIds); q != nil {
+				queue, scripted = q, true
+				w.Count("marker scripts (chain)")
+			}
+		}
 		if len(queue) == 0 && !scripted && bulk == 0 && s >= 3 && (h.profile == "authz" || h.profile == "mixed") && r.Intn(5) == 0 {
 			if q := h.expiryScript(nIds); q != nil {
 				queue, scripted = q, true
 				w.Count("expiry scripts")
 			}
 		}
-		if len(queue) > 0 {
+		fromQueue := false
+		for len(queue) > 0 && !fromQueue {
 			op, queue = queue[0](), queue[1:]
+			// a scripted message of an account without a key cannot come in a transaction: skipped
+			fromQueue = net == nil || net.signable(op)
+		}
+		if fromQueue {
 			if bulk > 0 {
 				op.cls = "bulk " + op.cls
 			} else if bulk < 0 {
 				op.cls = "script " + op.cls
 			} else if scripted {
-				op.cls = "expiry " + op.cls
+				op.cls = "scripted " + op.cls
 			} else {
 				op.cls = "legacy " + op.cls
 			}
+		} else if len(h.pending) > 0 {
+			op, h.pending = h.pending[0](), h.pending[1:]
 		} else {
 			op = h.genOp(nIds)
+			for tries := 0; net != nil && !net.signable(op) && tries < 40; tries++ {
+				h.pending = nil
+				op = h.genOp(nIds) // a message of an account without a key cannot come in a transaction
+			}
 		}
 		cls := op.cls
 		before := make([]int, nIds)
@@ -1814,10 +1985,17 @@ func c09History(e *c09Env, r *rand.Rand, w *CaseWriter, hi int, legacy int, bulk
 			bcls[d] = h.voClass(d, before[d])
 			bkind[d] = h.holderKind(before[d], bcls[d])
 		}
-		cctx, write := h.ctx.CacheContext()
-		err := op.run(cctx)
+		var err error
+		note := ""
+		if net != nil {
+			note, err = net.deliver(h, op, w)
+		} else {
+			cctx, write := h.ctx.CacheContext()
+			if err = op.run(cctx); err == nil {
+				write()
+			}
+		}
 		if err == nil {
-			write()
 			accepted++
 			w.Count("accepted " + cls)
 		} else {
@@ -1860,8 +2038,12 @@ func c09History(e *c09Env, r *rand.Rand, w *CaseWriter, hi int, legacy int, bulk
 				w.Count("steps moving more than 100 tokens")
 			}
 		}
+		for _, x := range h.extra {
+			steps, descs = append(steps, x[0]), append(descs, x[1])
+		}
+		h.extra = nil
 		steps = append(steps, fmt.Sprintf("(%s, %s)", op.term, h.observe(err == nil)))
-		descs = append(descs, fmt.Sprintf("%s -> %v", op.dsc, err == nil))
+		descs = append(descs, fmt.Sprintf("%s%s -> %v", op.dsc, note, err == nil))
 	}
 	idN := make([]int, nIds)
 	for i := range idN {
@@ -1869,7 +2051,7 @@ func c09History(e *c09Env, r *rand.Rand, w *CaseWriter, hi int, legacy int, bulk
 	}
 	accN := append(append([]int{}, e.order...), c09Other)
 	term := fmt.Sprintf("CHist %s %s %s %s %s", c09Ns(idN), c09Ns(accN), start, obs0, coqList(steps))
-	w.Add(term, map[string]any{"history": hi, "scopes": nIds, "legacy": legacy, "bulk": bulk, "profile": h.profile, "steps": descs})
+	w.Add(term, map[string]any{"history": hi, "scopes": nIds, "legacy": legacy, "bulk": bulk, "profile": h.profile, "abci": net != nil, "steps": descs})
 	w.Count("histories")
 	w.Count("histories profile " + h.profile)
 	w.CountN("history_steps", int64(len(steps)))
@@ -1897,6 +2079,12 @@ func TestC09(t *testing.T) {
 	}
 	for k := 1; k <= 5; k++ {
 		c09History(e, r, w, n+1000+k, 0, -k) // the observation Examples of Properties/C09.v
+	}
+	// the ABCI route: the same histories with every message in a signed transaction through CheckTx and
+	// FinalizeBlock, with and without a fee granter (one chain per history)
+	for i := 0; i < scale(24, 200); i++ {
+		net := c09NewNet(t)
+		c09HistoryOn(net.env, net, r, w, n+2000+i, 0, 0)
 	}
 	w.Flush(t)
 }
